@@ -23,7 +23,10 @@ pub fn mw(seed: u64) -> Program {
     let nmw = g.rng.range(1, 3) as u32;
     let reds: Vec<u32> = (0..nred).collect();
     let mws: Vec<u32> = (100..100 + nmw).collect();
-    let cap = g.rng.pick(&CAPS);
+    // some programs let a middleware dispatch synchronously from before_reduce: the queue is then
+    // large enough that the reducer thread can never block on itself
+    let sync_dispatch = g.rng.chance(25);
+    let cap = if sync_dispatch { 16 } else { g.rng.pick(&CAPS) };
     let builder = g.canonical_builder("mw", cap, Policy::Block, &reds, &mws);
     let stores = vec![StoreCfg { builder, droppable: false, stepper: None, ctor: 0 }];
     let mut subs = vec![];
@@ -73,6 +76,9 @@ pub fn mw(seed: u64) -> Program {
             if g.rng.chance(6) {
                 let id = g.new_eff();
                 sc.thunk = Some(EffSpec { id, kind: EffKind::Thunk(vec![]), panic: false, gate: None, sleep_ms: 0 });
+            }
+            if sync_dispatch && m == mws[0] && g.rng.chance(40) {
+                sc.dispatch = Some(g.plain_act(&reds, 0));
             }
             g.acts.get_mut(&a).unwrap().mw.insert(m, sc);
         }
